@@ -182,20 +182,33 @@ func TypeMapOf(typ reflect.Type) map[string]reflect.Type {
 
 //FetchType map
 func FetchType(typ reflect.Type, typMap map[string]reflect.Type) {
+	fetchType(typ, typMap, make(map[reflect.Type]struct{}))
+}
+
+// walked holds the list and map types already entered: a named one may contain itself
+// (type Tree map[string]Tree)
+func fetchType(typ reflect.Type, typMap map[string]reflect.Type, walked map[reflect.Type]struct{}) {
 	typ = UnpackPtrType(typ)
 
 	if IsRawKind(typ.Kind()) {
 		return
 	}
 
+	if typ.Kind() == reflect.Array || typ.Kind() == reflect.Slice || typ.Kind() == reflect.Map {
+		if _, ok := walked[typ]; ok {
+			return
+		}
+		walked[typ] = struct{}{}
+	}
+
 	if typ.Kind() == reflect.Array || typ.Kind() == reflect.Slice {
-		FetchType(typ.Elem(), typMap)
+		fetchType(typ.Elem(), typMap, walked)
 		return
 	}
 
 	if typ.Kind() == reflect.Map {
-		FetchType(typ.Key(), typMap)
-		FetchType(typ.Elem(), typMap)
+		fetchType(typ.Key(), typMap, walked)
+		fetchType(typ.Elem(), typMap, walked)
 		return
 	}
 
@@ -209,7 +222,7 @@ func FetchType(typ reflect.Type, typMap map[string]reflect.Type) {
 	}
 	typMap[typ.Name()] = typ
 	for i := 0; i < typ.NumField(); i++ {
-		FetchType(typ.Field(i).Type, typMap)
+		fetchType(typ.Field(i).Type, typMap, walked)
 	}
 
 }
